@@ -140,6 +140,32 @@ def k1_in_buffer(prop, tier, seed):
     return r
 
 
+def c06_directed(prop, tier, seed):
+    """Directed histories of two objects on one file (who leaves first, who wrote last, who never touched the buffer, a
+    reset without a read, ...) on all 8 buffered classes: model correspondence + the C05/C06 oracles."""
+    import kbuf
+    t = time.time()
+    out = kbuf.run_c06_directed(seed, tier)
+    bad, diags = kbuf.check_against_model(out)
+    mism = []
+    for b, txt in diags:
+        m = re.search(r"Some \((\d+), (\d+)\)", txt)
+        st = int(m.group(1)) if m else None
+        mism.append({"correspondence": "K-buf directed (Corr/KBuf.v check_bcase)", "meta": out["meta"][b], "first_differing_step": st,
+                     "reason_code": int(m.group(2)) if m else None, "steps": out["logs"][b][: (st + 1) if st is not None else 5][-6:]})
+    fails = []
+    for f in out["oracle"]:
+        if f["oracle"].startswith(("C05", "C06", "harness")):
+            g = dict(f)
+            g.update(directed=True, steps=out["logs"][f["session"]][: f["step"] + 1][-10:])
+            fails.append(g)
+    return {"name": "K-buf/C06-directed", "evaluations": sum(len(l) for l in out["logs"]), "distinct_nontrivial": len(out["cases"]),
+            "traces": len(out["cases"]), "rule": "8 directed histories of two objects bound to one file (and a third on another file) x 8 buffered classes; "
+            "distinct = (class, history)", "model_mismatches": mism, "oracle_failures": fails,
+            "samples": [{"script": out["meta"][0]["script"], "steps": out["logs"][0][4:9]}], "stats": {}, "classes": out["classes"],
+            "wall_s": round(time.time() - t, 1), "exhaustive": True}
+
+
 def c03_order(prop, tier, seed):
     import k_extra
     return k_extra.run_c03_order(prop, tier, seed)
@@ -399,7 +425,7 @@ CANDIDATES = {
     "C05": KBufSpec(["C05", "C05cap"], ["C05", "C15-zero", "C15-capacity"], findings=("D19",),
                     extra=[k1_in_buffer, lambda prop, tier, seed: __import__("kbuf").run_c05_diff(prop, tier, seed),
                            lambda prop, tier, seed: __import__("kbuf").run_buf_faults(prop, tier, seed)]),
-    "C06": KBufSpec(["C06", "C06b"], ["C05", "C06"], findings=("D19",)),
+    "C06": KBufSpec(["C06", "C06b"], ["C05", "C06"], findings=("D19",), extra=[c06_directed]),
     "C07": KBufSpec(["C07", "C07cap"], ["C07", "C15-zero", "C15-capacity"], grid=True),
     "C15": KBufSpec(["C15", "C05cap"], ["C15"], grid=True, extra=[lambda prop, tier, seed: __import__("kbuf").run_buf_faults(prop, tier, seed)]),
     "C16": K1Spec("MIX", ["C16"], extra=[lambda prop, tier, seed: __import__("k_extra").run_c16(prop, tier, seed)],
